@@ -52,6 +52,11 @@ typedef struct {
 	uint32_t pat[2];
 } evt_t;
 
+/* Under the C01 check (dispatch exactly when runnable, once per reason, in arrival order) and
+ * the C02 check (a cancelled timeout never causes a spurious dispatch) the scheduler-level
+ * verdicts of this harness belong to the property being checked; otherwise they are C06's. */
+#define OWNER (sim_prop_is("C01") ? "C01" : sim_prop_is("C02") ? "C02" : "C06")
+
 static fibre_eventq_t *evq;
 static fibre_t *fib[NFIB];		/* fib[FE] == &evq->fibre */
 static uint8_t *evstore;
@@ -103,7 +108,7 @@ static void body_enter(int x)
 	dispatch_count_in_pass++;
 	in_body = x;
 	if (!in_call_sched)
-		sim_fail("C06", "QUEUE_CORRUPT:dispatch_outside_pass", "fibre %d invoked outside fibre_scheduler_next", x);
+		sim_fail(OWNER, "QUEUE_CORRUPT:dispatch_outside_pass", "fibre %d invoked outside fibre_scheduler_next", x);
 	if (B[x].oblig && B[x].oblig < ev) {
 		B[x].oblig = 0;
 		sim_probe(P_OBLIGATION_DISCHARGED);
@@ -111,7 +116,7 @@ static void body_enter(int x)
 	B[x].timer_known = false;
 	sim_ev("enter", x, B[x].dispatches, 0);
 	if (x != FY && B[x].dispatches > B[x].reasons)
-		sim_fail("C06", "EXTRA_DISPATCH",
+		sim_fail(OWNER, "EXTRA_DISPATCH",
 			 "fibre %d was dispatched %u times but only %u reason(s) (initial run, fibre_run calls, accepted atomic requests, timeouts) were ever issued",
 			 x, B[x].dispatches, B[x].reasons);
 }
@@ -386,7 +391,7 @@ static pass_t do_pass(void)
 	r.dispatched = last_dispatched;
 	r.final_check_seq = 0;
 	if (dispatch_count_in_pass > 1)
-		sim_fail("C06", "QUEUE_CORRUPT:two_dispatches", "one fibre_scheduler_next call dispatched %d fibres", dispatch_count_in_pass);
+		sim_fail(OWNER, "QUEUE_CORRUPT:two_dispatches", "one fibre_scheduler_next call dispatched %d fibres", dispatch_count_in_pass);
 	if (pub_addr)
 		for (uint32_t i = simrt_alog_len(); i-- > a0; ) {
 			const simrt_alog_t *a = simrt_alog(i);
@@ -409,7 +414,7 @@ static pass_t do_pass(void)
 	if ((mode == SIMRT_IRQ || quiet_pass) && r.wake != now)
 		for (int x = 0; x < nfib; x++)
 			if (B[x].oblig && B[x].oblig <= r.start_ev)
-				sim_fail(sim_prop_is("C03") ? "C03" : "C06",
+				sim_fail(sim_prop_is("C03") ? "C03" : OWNER,
 					 sim_prop_is("C03") ? "WAKEUP_MISSED_IRQ:stuck" : "LOST_WAKEUP:stuck",
 					 "fibre_scheduler_next(0x%08x) returned 0x%08x (sleep) although the request for fibre %d accepted at event %llu, before the call began at event %llu, has neither been dispatched nor withdrawn",
 					 now, r.wake, x, (unsigned long long)B[x].oblig, (unsigned long long)r.start_ev);
@@ -523,6 +528,13 @@ static void main_loop(bool probe_passes, uint32_t iters)
 				adv = 1 + sim_choose(1000);
 			if (adv > 1000)
 				sim_fault(F_CLOCK_JUMP);
+			now += adv;
+			sim_clock = now;
+			sim_ticks(adv);
+		} else if (p.wake == now) {
+			/* time passes while fibres keep the processor busy, too: a timeout can fall due
+			 * in a pass that also requeues a yielder and drains interrupt requests */
+			uint32_t adv = sim_choose(4);
 			now += adv;
 			sim_clock = now;
 			sim_ticks(adv);
@@ -660,11 +672,11 @@ static void run(void)
 		}
 	}
 	if (!idle)
-		sim_fail("C06", "NO_QUIESCENCE", "the scheduler did not report idle within 64 passes after the last interrupt-context call");
+		sim_fail(OWNER, "NO_QUIESCENCE", "the scheduler did not report idle within 64 passes after the last interrupt-context call");
 	sim_probe(P_QUIESCED);
 	for (int x = 0; x < nfib; x++)
 		if (B[x].oblig)
-			sim_fail("C06", "LOST_WAKEUP",
+			sim_fail(OWNER, "LOST_WAKEUP",
 				 "fibre_run_atomic for fibre %d returned true (event %llu) but the fibre was never dispatched afterwards (its last dispatch began at event %llu)",
 				 x, (unsigned long long)B[x].oblig, (unsigned long long)B[x].last_entry);
 	for (uint32_t k = 0; k < n_events; k++)
@@ -698,7 +710,7 @@ static void run(void)
 		pass_t p = do_pass();
 		int want = i < nfib ? order[i] : -1;
 		if (p.dispatched != want)
-			sim_fail("C06", "QUEUE_CORRUPT:health", "after quiescence fibres were run in a known order; pass %d dispatched %d, expected %d", i, p.dispatched, want);
+			sim_fail(OWNER, "QUEUE_CORRUPT:health", "after quiescence fibres were run in a known order; pass %d dispatched %d, expected %d", i, p.dispatched, want);
 	}
 	sim_probe(P_QUEUE_HEALTH_CHECKED);
 	sim_check_guards();
